@@ -48,7 +48,7 @@ claim("C12",
       "Unbounded string lengths are covered (SMT strings); token counts beyond the Layer-B bounds only through the step lemmas.",
       "DESIGN.md 6/C12, 7")
 claim("C13",
-      "Relational assertions on complete domains: temporal with all Not Defined equals base (v2, v3), temporal <= base, v3 environmental with all eleven metrics X or omitted equals temporal unless v3.1 and scope changed, v2 environmental group all Not Defined equals temporal, v2 environmental with TD:N is 0; the temporal / base comparisons are also made through an environmental object whose environmental score was queried first.",
+      "Relational assertions on complete domains: temporal with all Not Defined equals base (v2, v3), temporal <= base, v3 environmental with all eleven metrics X or omitted equals temporal unless v3.1 and scope changed, v2 environmental group all Not Defined equals temporal, v2 environmental with TD:N is 0 for every canonical environmental vector (VH_C13_v2_td_none, through Score() of a decoded object); the temporal / base comparisons are also made through an environmental object whose environmental score was queried first.",
       "", "DESIGN.md 6/C13")
 claim("C14",
       "Accessors return the embedded objects (pointer identity in the heap model, nil-safe); for every canonical environmental vector the scores, severities and encodings seen through higher-level objects equal those of independent lower-level decodes; the higher-level decodeOne acts on the embedded object exactly as the lower-level step (both equal the same reference step, Layer A); the comparisons hold whether or not the environmental score was queried first, and a decoder object that accepts a second vector returns what a fresh decoder returns (conditional: the pinned decoders reject every reuse).",
